@@ -322,7 +322,11 @@ class Check:
             self.log(f"PROOF OBLIGATION BROKEN at {bad}")
             self.broken.append({"kind": "proof", "where": bad, "log": out[-1500:]})
             return False
-        pa = print_assumptions(module, theorems, self.log)
+        try:
+            pa = print_assumptions(module, theorems, self.log)
+        except BuildError as e:
+            self.broken.append({"kind": "proof", "where": "Print Assumptions " + module, "log": str(e)[-800:]})
+            return False
         good = 0
         for t, ax in pa.items():
             extra = [a for a in ax if a not in AXIOM_ALLOW]
